@@ -1014,6 +1014,7 @@ func (n *normalizer) rewriteStmt(st ast.Stmt, file *ast.File) (string, bool) {
 	multiOK := false // the statement may take a multi-value call directly
 	var multiCall *ast.CallExpr
 	wrapIf := (*ast.IfStmt)(nil)
+	var initFirst *ast.AssignStmt
 	switch x := st.(type) {
 	case *ast.ExprStmt:
 		exprs = []ast.Expr{x.X}
@@ -1053,16 +1054,23 @@ func (n *normalizer) rewriteStmt(st ast.Stmt, file *ast.File) (string, bool) {
 			if !ok {
 				return "", false
 			}
-			exprs = append(exprs, as.Lhs...)
-			exprs = append(exprs, as.Rhs...)
-			if len(as.Rhs) == 1 {
-				if c, ok := as.Rhs[0].(*ast.CallExpr); ok && n.isTarget(c) {
-					multiOK, multiCall = true, c
-				}
-			}
-			// targets in the condition would run before the init statement
 			if ts, _ := n.hoistTargets([]ast.Expr{x.Cond}); len(ts) > 0 {
-				return "", false
+				// `if init; cond(helper) {..}`: the init statement is moved in front (inside the
+				// block that replaces the statement, so its variables keep their scope), the
+				// helper calls of the condition follow it
+				if its, _ := n.hoistTargets(append(append([]ast.Expr{}, as.Lhs...), as.Rhs...)); len(its) > 0 {
+					return "", false
+				}
+				initFirst = as
+				exprs = []ast.Expr{x.Cond}
+			} else {
+				exprs = append(exprs, as.Lhs...)
+				exprs = append(exprs, as.Rhs...)
+				if len(as.Rhs) == 1 {
+					if c, ok := as.Rhs[0].(*ast.CallExpr); ok && n.isTarget(c) {
+						multiOK, multiCall = true, c
+					}
+				}
 			}
 		} else {
 			exprs = []ast.Expr{x.Cond}
@@ -1169,6 +1177,12 @@ func (n *normalizer) rewriteStmt(st ast.Stmt, file *ast.File) (string, bool) {
 		pre.WriteString(txt)
 		edits = append(edits, textEdit{n.off(c.Pos()) - stStart, n.off(c.End()) - stStart, repl})
 	}
+	initText := ""
+	if initFirst != nil && wrapIf != nil {
+		// drop "init;" from the if header, keep it as a statement of its own
+		initText = string(src[n.off(initFirst.Pos()):n.off(initFirst.End())]) + "\n"
+		edits = append(edits, textEdit{n.off(initFirst.Pos()) - stStart, n.off(wrapIf.Cond.Pos()) - stStart, ""})
+	}
 	stmtText := string(applyEdits(append([]byte{}, src[stStart:stEnd]...), edits))
 	if es, isExpr := st.(*ast.ExprStmt); isExpr {
 		if c, ok := es.X.(*ast.CallExpr); ok && c == multiCall {
@@ -1177,7 +1191,7 @@ func (n *normalizer) rewriteStmt(st ast.Stmt, file *ast.File) (string, bool) {
 	}
 	_ = text
 	_ = wrapIf
-	return "{\n" + pre.String() + stmtText + "\n}\n", true
+	return "{\n" + initText + pre.String() + stmtText + "\n}\n", true
 }
 
 // terminating: the block always leaves the enclosing straight-line code.
@@ -1186,6 +1200,8 @@ func terminating(b *ast.BlockStmt) bool {
 		return false
 	}
 	switch x := b.List[len(b.List)-1].(type) {
+	case *ast.BlockStmt:
+		return terminating(x)
 	case *ast.ReturnStmt:
 		return true
 	case *ast.BranchStmt:
@@ -1205,20 +1221,20 @@ func terminating(b *ast.BlockStmt) bool {
 func (n *normalizer) rewriteErrChecked(as *ast.AssignStmt, ifst *ast.IfStmt, file *ast.File) (string, bool) {
 	info := n.pkg.TypesInfo
 	if len(as.Rhs) != 1 || (as.Tok != token.ASSIGN && as.Tok != token.DEFINE) || len(as.Lhs) < 1 {
-		return "", false
+		return n.failE(1)
 	}
 	call, ok := as.Rhs[0].(*ast.CallExpr)
 	if !ok || !n.isTarget(call) {
-		return "", false
+		return n.failE(2)
 	}
 	for _, a := range call.Args {
 		if ts, _ := n.hoistTargets([]ast.Expr{a}); len(ts) > 0 {
-			return "", false
+			return n.failE(3)
 		}
 	}
 	errId, ok := as.Lhs[len(as.Lhs)-1].(*ast.Ident)
 	if !ok || errId.Name == "_" {
-		return "", false
+		return n.failE(4)
 	}
 	var errObj types.Object
 	if o := info.Defs[errId]; o != nil {
@@ -1227,10 +1243,10 @@ func (n *normalizer) rewriteErrChecked(as *ast.AssignStmt, ifst *ast.IfStmt, fil
 		errObj = info.Uses[errId]
 	}
 	if errObj == nil {
-		return "", false
+		return n.failE(5)
 	}
 	if ifst.Init != nil || ifst.Else != nil || !terminating(ifst.Body) {
-		return "", false
+		return n.failE(6)
 	}
 	isErr := types.Identical(errObj.Type(), types.Universe.Lookup("error").Type())
 	isBool := false
@@ -1241,28 +1257,28 @@ func (n *normalizer) rewriteErrChecked(as *ast.AssignStmt, ifst *ast.IfStmt, fil
 	case isErr:
 		be, ok := ifst.Cond.(*ast.BinaryExpr)
 		if !ok || be.Op != token.NEQ {
-			return "", false
+			return n.failE(7)
 		}
 		cx, ok := be.X.(*ast.Ident)
 		if !ok || info.Uses[cx] != errObj {
-			return "", false
+			return n.failE(8)
 		}
 		if ny, ok := be.Y.(*ast.Ident); !ok || info.Uses[ny] == nil {
-			return "", false
+			return n.failE(9)
 		} else if _, isNil := info.Uses[ny].(*types.Nil); !isNil {
-			return "", false
+			return n.failE(10)
 		}
 	case isBool:
 		ue, ok := ifst.Cond.(*ast.UnaryExpr)
 		if !ok || ue.Op != token.NOT {
-			return "", false
+			return n.failE(11)
 		}
 		cx, ok := ue.X.(*ast.Ident)
 		if !ok || info.Uses[cx] != errObj {
-			return "", false
+			return n.failE(12)
 		}
 	default:
-		return "", false
+		return n.failE(13)
 	}
 	// a `break`/`continue` in the handler would bind to the inlined block's own loop
 	bad := false
@@ -1283,7 +1299,7 @@ func (n *normalizer) rewriteErrChecked(as *ast.AssignStmt, ifst *ast.IfStmt, fil
 	handler := string(src[n.off(ifst.Body.Lbrace)+1 : n.off(ifst.Body.Rbrace)])
 	if bad {
 		// unlabeled continue/break of the caller's loop: not expressible inside the helper's block
-		return "", false
+		return n.failE(14)
 	}
 	avoid := map[string]bool{}
 	for _, nm := range identsOf(ifst.Body) {
@@ -1294,7 +1310,16 @@ func (n *normalizer) rewriteErrChecked(as *ast.AssignStmt, ifst *ast.IfStmt, fil
 	var q types.Qualifier
 	var missing []*types.Package
 	q = n.qualifierFor(file, &missing)
-	for _, l := range as.Lhs {
+	ref := n.resolveCallee(call)
+	for li, l := range as.Lhs {
+		if id, isId := l.(*ast.Ident); isId && id.Name == "_" && ref != nil && li < ref.sig.Results().Len() {
+			// a discarded result still needs a typed place to be assigned to
+			n.counter++
+			tmp := fmt.Sprintf("inl%d_blank", n.counter)
+			fmt.Fprintf(&pre, "var %s %s\n_ = %s\n", tmp, types.TypeString(ref.sig.Results().At(li).Type(), q), tmp)
+			targets = append(targets, tmp)
+			continue
+		}
 		targets = append(targets, text(l))
 		for _, nm := range identsOf(l) {
 			avoid[nm] = true
@@ -1306,14 +1331,22 @@ func (n *normalizer) rewriteErrChecked(as *ast.AssignStmt, ifst *ast.IfStmt, fil
 		}
 	}
 	if len(missing) > 0 {
-		return "", false
+		return n.failE(15)
 	}
 	n.curCall, n.curLHS = call, as.Lhs
 	txt, _, ok := n.inlineCallX(call, file, as.Pos(), &inlineOpts{targets: targets, handler: handler, avoid: avoid})
 	if !ok {
-		return "", false
+		return n.failE(16)
 	}
 	return pre.String() + txt + text(ifst) + "\n", true
+}
+
+// failE reports (under NORM_DEBUG) which condition stopped the error-checked rewrite.
+func (n *normalizer) failE(k int) (string, bool) {
+	if os.Getenv("NORM_DEBUG") != "" {
+		fmt.Fprintf(os.Stderr, "err-checked rewrite stopped at condition %d\n", k)
+	}
+	return "", false
 }
 
 // collectStmts lists the simple statements of a body (not descending into rewritten ones later).
@@ -1470,7 +1503,22 @@ func declares(st ast.Stmt) bool {
 func NormalizeOverlay(pkgs []*packages.Package, current map[string][]byte) (map[string][]byte, []string) {
 	out := map[string][]byte{}
 	var log []string
+	// names of generated labels and temporaries must differ between rounds: the text of earlier
+	// rounds is part of the source now
 	counter := 0
+	for _, b := range current {
+		for i := 0; i+3 < len(b); i++ {
+			if b[i] == 'i' && b[i+1] == 'n' && b[i+2] == 'l' {
+				k := 0
+				for j := i + 3; j < len(b) && b[j] >= '0' && b[j] <= '9'; j++ {
+					k = k*10 + int(b[j]-'0')
+				}
+				if k >= counter {
+					counter = k + 1
+				}
+			}
+		}
+	}
 	for _, pk := range pkgs {
 		if !strings.HasPrefix(pk.PkgPath, ModPath) || pk.TypesInfo == nil {
 			continue
